@@ -384,10 +384,102 @@ def evaluate(prop, t, tp, d, o, ns, mo):
                     and not any(f["fbod"] for f in all_fields(t)) and st["ok"] != im["ok"]:
                 # (fall-back on default is a union in disguise: a field that fell back strictly may be coerced)
                 fails.append("coercion-changes-an-accepted-value")
+        elif ik == "ok" and jsonish and not o["fbod"]:
+            # rejected strictly, accepted under coercion: every leaf where the class of the datum is not the expected one
+            # must be a conversion of the documented table (model-free; union-free types only)
+            bad = outside_table(t, instantiate(d))
+            if bad: fails.append("coercion-outside-the-documented-table"); info["outside_table"] = bad[:3]
+        # custom coercers: one that never converts leaves strict behaviour unchanged; the result of one that returns
+        # wrong-typed values is still type-checked (ValidationError, or a value of the declared type; never anything else)
+        if rnd_pick(d, 3) == 0:
+            keep2 = {}
+            idr = run_impl(tp, d, dict(o, coerce=_identity_coercer), keep=keep2)
+            if kind_of(idr) != kind_of(st): fails.append("identity-coercer-changes-acceptance:" + kind_of(st) + "->" + kind_of(idr))
+            elif "ok" in idr and not ({"union", "optional"} & t.features()) and idr["ok"] != st["ok"]: fails.append("identity-coercer-changes-the-value")
+            if "ok" in idr and jsonish and not value_fits(t, keep2.get("value"), ns): fails.append("custom-coercer-result-not-type-checked"); info["got"] = repr(keep2.get("value"))[:80]
+            keep3 = {}
+            wr = run_impl(tp, d, dict(o, coerce=_wrong_coercer), keep=keep3)
+            if kind_of(wr) == "crash": fails.append("wrong-typed-coercer-result-crashes:" + wr["crash"])
+            elif "ok" in wr and jsonish and not value_fits(t, keep3.get("value"), ns): fails.append("custom-coercer-result-not-type-checked"); info["got"] = repr(keep3.get("value"))[:80]
         if "strict" in mo and modelled:
             ms = canon_model(mo["strict"])
             if not str(ms.get("crash", "")).startswith("ModelScope") and not same(st, ms): k_ok = False
     return im, m, k_ok, fails, info
+
+
+def _identity_coercer(cls, data): return data
+_WRONG = {int: "x", float: "x", str: 0, bool: "x", type(None): 0, list: {}, dict: []}
+def _wrong_coercer(cls, data): return _WRONG.get(cls, data)
+def rnd_pick(d, n): return hash(json.dumps(dproto(d), sort_keys=True, default=str)) % n
+
+
+def value_fits(t, v, ns):
+    """is the runtime value `v` a value of the generated type `t` (classes looked up in the generated module)"""
+    k = t.kind
+    if k in ("any", "cut", "merged", "tuple_union"): return True
+    if k == "none": return v is None
+    if k == "bool": return type(v) is bool
+    if k in ("int", "cint"): return type(v) is int
+    if k in ("float", "cfloat"): return type(v) is float
+    if k in ("str", "cstr"): return type(v) is str
+    if k in ("literal", "enum"):
+        if k == "enum": return type(v).__name__ == t.py
+        return any(v == x and type(v) is type(x) for x in t.vals) or any(v == x for x in t.vals)
+    if k in ("list", "clist", "sequence"): return isinstance(v, (list, tuple)) and all(value_fits(t.kids[0], x, ns) for x in v)
+    if k == "set": return type(v) is set and all(value_fits(t.kids[0], x, ns) for x in v)
+    if k == "frozenset": return type(v) is frozenset and all(value_fits(t.kids[0], x, ns) for x in v)
+    if k == "vtuple": return type(v) is tuple and all(value_fits(t.kids[0], x, ns) for x in v)
+    if k == "tuple": return type(v) is tuple and len(v) == len(t.kids) and all(value_fits(a, x, ns) for a, x in zip(t.kids, v))
+    if k in ("mapping", "cdict"): return isinstance(v, dict) and all(value_fits(t.kids[-1], x, ns) for x in v.values())
+    if k == "optional": return v is None or value_fits(t.kids[0], v, ns)
+    if k == "union": return any(value_fits(a, v, ns) for a in t.kids)
+    if k == "newtype": return value_fits(t.kids[0], v, ns)
+    if hasattr(t, "fields"):
+        cls = ns.get(t.py)
+        if k == "typeddict" or cls is None: return isinstance(v, dict) if k == "typeddict" else True
+        if not isinstance(v, cls): return False
+        return all(value_fits(f["ty"], getattr(v, f["name"]), ns) for f in t.fields if hasattr(v, f["name"]) and not f["fbod"])
+    return True
+
+
+BOOL_WORDS = {"0", "1", "f", "t", "n", "y", "no", "yes", "false", "true", "off", "on", "ko", "ok"}     # the documented table
+
+
+def outside_table(t, d):
+    """leaves of (type, datum) whose conversion is not in the documented table; None-free best effort: positions under a
+    union, Any, Literal or Enum are not judged"""
+    k = t.kind; out = []
+    if k in ("union", "optional", "any", "literal", "enum", "tuple_union", "cut"): return out
+    if k in ("newtype",): return outside_table(t.kids[0], d)
+    if k == "merged": return out
+    if k in ("none",):
+        if d is not None and d != "": out.append(["none", repr(d)])
+    elif k == "bool":
+        if type(d) is not bool and not (type(d) is int) and not (isinstance(d, str) and d.lower() in BOOL_WORDS): out.append(["bool", repr(d)])
+    elif k in ("int", "cint"):
+        if type(d) not in (int, float, str): out.append(["int", repr(d)])
+    elif k in ("float", "cfloat"):
+        if type(d) not in (int, float, str): out.append(["float", repr(d)])
+    elif k in ("str", "cstr"):
+        if type(d) not in (int, float, str): out.append(["str", repr(d)])
+    elif k in ("list", "set", "frozenset", "vtuple", "clist", "sequence"):
+        if isinstance(d, list):
+            for x in d: out += outside_table(t.kids[0], x)
+        else: out.append([k, repr(d)[:40]])
+    elif k == "tuple":
+        if isinstance(d, list) and len(d) == len(t.kids):
+            for a, x in zip(t.kids, d): out += outside_table(a, x)
+        else: out.append([k, repr(d)[:40]])
+    elif k in ("mapping", "cdict"):
+        if isinstance(d, dict):
+            for x in d.values(): out += outside_table(t.kids[-1], x)
+        else: out.append([k, repr(d)[:40]])
+    elif hasattr(t, "fields"):
+        if isinstance(d, dict):
+            for f in t.fields:
+                if f["alias"] in d and not f["fbod"]: out += outside_table(f["ty"], d[f["alias"]])
+        else: out.append([k, repr(d)[:40]])
+    return out
 
 
 def all_fields(t):
